@@ -236,6 +236,9 @@ def bNot (s : VM) : VM × Res :=
 inductive Norm where
   | num (bits : UInt64)
   | text (bytes : List UInt8)
+  | flag (b : Bool)
+  | ident (ref off len : Nat)   -- Go `sliceID`: first shared element and length
+  | markv
   deriving DecidableEq
 
 def nameBytes (n : Name) : List UInt8 := n.toList.map (fun c => UInt8.ofNat c.toNat)
@@ -245,6 +248,10 @@ def normalize (s : VM) : Obj → Option Norm
   | .int v => some (.num (realOfInt v))
   | .str r o l => some (.text (s.viewBytes r o l))
   | .name n => some (.text (nameBytes n))
+  | .bool b => some (.flag b)
+  | .arr r o l => some (if l = 0 then .ident 0 0 0 else .ident r o l)
+  | .proc r o l => some (if l = 0 then .ident 0 0 0 else .ident r o l)
+  | .mark => some .markv
   | _ => none
 
 /-- the Go function `equal`; `none` = typecheck -/
@@ -262,6 +269,9 @@ def equalObjs (s : VM) (a b : Obj) : Option Bool :=
         match na, nb with
         | .num x, .num y => some (feq x y)
         | .text x, .text y => some (x == y)
+        | .flag x, .flag y => some (x == y)
+        | .ident r o l, .ident r' o' l' => some (r == r' && o == o' && l == l')
+        | .markv, .markv => some true
         | _, _ => some false
 
 def bEqNe (neg : Bool) (s : VM) : VM × Res :=
@@ -646,7 +656,7 @@ def bType (s : VM) : VM × Res :=
       | .str .. => "stringtype"
       | .mark => "marktype"
       | .cmapInfo _ => ""
-    if tp == "" then psErr s "typecheck" else okRes (s.push (.name tp))
+    if tp == "" then psErr s "typecheck" else okRes { s with stack := .name tp :: s.stack.tail }   -- the operand is replaced
 
 def bCurrentfile (s : VM) : VM × Res := okRes (s.push .file)
 
